@@ -105,6 +105,7 @@ spec handlerTouches(h ddperror.Handler, p *parser) bool
 // the handler wrapper installed by newParser: an error-level diagnostic raises the flag, a warning never does,
 // and the diagnostic is passed on to the user's handler exactly once
 func newParser$1 [C07]
+  tag raisesErrored
   requires parser != nil
   // the handler handed to newParser existed before this parser did, so it cannot be this parser's own wrapper
   assume !handlerTouches(errorHandler, parser)
@@ -139,6 +140,11 @@ func newParser
   freshresult
   modifies []token.Token
   ensures result != nil
+
+// ... but this much of the constructor is proved: the resolver and the type checker report through the wrapper that
+// raises the parser's flag (not through the user's handler directly), so their diagnostics count as failure too
+func newParser#2 [C07]
+  callsite New requires tagged(arg2, raisesErrored)
 
 func validateOptions
   trusted
